@@ -29,6 +29,8 @@ from checks.C08 import _model, _data_db, _masks, _mask_str, STDS
 
 PID = "C03"
 TOL = Fraction(1, 10 ** 8)
+STDS.setdefault("ur_mix", dict(std_el=1.0, std_eg=0.5, std_ex=0.8, std_wl=0.3))
+UR_MODELS = ("ur_mix", "ur_drift")
 
 
 def _fr(x):
@@ -47,7 +49,7 @@ def _oracle_setup(ir, zm, m, nper, deviation, std_override=None):
         stds.update(std_override)
     su = [stds["std_" + q2n[t.qid]] for t in vec.transition_shocks]
     sw = [stds["std_" + q2n[t.qid]] for t in vec.measurement_shocks]
-    B = kf.BatchOracle(T, P, K, Z, H, D, su, sw, nper)
+    B = kf.BatchOracle(T, P, K, Z, H, D, su, sw, nper, unit_roots=zm.unit_roots)
     xi = [(q2n[t.qid], t.shift) for t in vec.transition_variables]
     ynames = [q2n[t.qid] for t in vec.measurement_variables]
     unames = [q2n[t.qid] for t in vec.transition_shocks]
@@ -275,6 +277,162 @@ def api_vs_oracle(run, ir, zm, m, nper, mask, deviation):
                            dict(case, kind="api_rescale", values={n: [v.numerator, v.denominator] for n, v in vals.items()}))
     else:
         run.unknown(key, f"solver {r}/{r2}")
+
+
+def _ur_identified(zm, B, mask, nper, ynames):
+    """the fixed unknown initial condition must be identified by the observed cells (otherwise its estimate is a convention)"""
+    yrow = {n: r for r, n in enumerate(ynames)}
+    obs_all = [(yrow[n], t) for r, n in enumerate(zm.mvars) for t in range(nper) if mask[(r, t)]]
+    try:
+        B.delta_gain(sorted(obs_all, key=lambda o: (o[1], o[0])))
+        return True
+    except ValueError:
+        return False
+
+
+def _ur_targets(B, xi, ynames, unames, wnames, t, kind):
+    nd = B.E.shape[1]
+    zero = np.zeros(nd)
+    targets = [(name, B.A[t][i:i + 1, :], B.mu[t][i], B.Dx[t][i]) for i, (name, sh) in enumerate(xi) if sh == 0]
+    targets += [(name, B.U[t][j:j + 1, :], 0.0, zero) for j, name in enumerate(unames)]
+    targets += [(name, B.W[t][j:j + 1, :], 0.0, zero) for j, name in enumerate(wnames)]
+    if kind == "predict":
+        targets += [(name, B.Y[t][r:r + 1, :], B.muy[t][r], B.Dy[t][r]) for r, name in enumerate(ynames)]
+    return targets
+
+
+def api_vs_oracle_ur(run, ir, zm, m, nper, mask, deviation):
+    """unit-root model under the default diffuse_method='fixed_unknown': concentrated-likelihood oracle (the initial condition of
+    the unit-root directions is a fixed unknown estimated by GLS from the whole sample; all moments are conditional on the estimate)"""
+    ms = _mask_str(mask, len(zm.mvars), nper)
+    base_key = f"{zm.name}:dev={deviation}:T={nper}:mask={ms}"
+    case = dict(kind="api_ur", model=zm.name, deviation=deviation, nper=nper, mask=ms)
+    start = ir.qq(2020, 1)
+    span = start >> (start + nper - 1)
+    db = _data_db(ir, zm, start, nper, mask)
+    B, xi, ynames, unames, wnames = _oracle_setup(ir, zm, m, nper, deviation)
+    if not _ur_identified(zm, B, mask, nper, ynames):
+        run.extra["ur_masks_not_identified"] = run.extra.get("ur_masks_not_identified", 0) + 1
+        return
+    try:
+        with kf.KalmanLift(ir, zm.mvars) as L, S.Path() as path:
+            out = m.kalman_filter(db, span, deviation=deviation)
+    except S.SymbolicBranchError:
+        raise
+    except Exception as exc:
+        run.counterexample(f"api:{base_key}", f"kalman:raises:{zm.name}", f"kalman_filter raises {type(exc).__name__}: {str(exc)[:140]}", dict(case, kind="api_raises", values={}))
+        return
+    cache = L.caches[0]
+    syms = dict(L.cap["syms"])
+    yrow = {n: r for r, n in enumerate(ynames)}
+    obs_all = [(yrow[n], t) for r, n in enumerate(zm.mvars) for t in range(nper) if mask[(r, t)]]
+    obs_all.sort(key=lambda o: (o[1], o[0]))
+    ys_all = [z3.Real(f"{ynames[o[0]]}__{o[1]}") for o in obs_all]
+
+    def affine(const, coef):
+        t = _fr(const)
+        for c, y in zip(coef, ys_all):
+            if c != 0.0:
+                t = t + _fr(c) * y
+        return t
+    claims, std_checks = [], []
+    filt = {"predict": lambda o, t: o[1] < t, "update": lambda o, t: o[1] <= t, "smooth": lambda o, t: True}
+    for kind, f in filt.items():
+        med, std = out[f"{kind}_med"], out[f"{kind}_std"]
+        for t in range(nper):
+            obs = [o for o in obs_all if f(o, t)]
+            for name, Lrow, m0, Drow in _ur_targets(B, xi, ynames, unames, wnames, t, kind):
+                if name not in med:
+                    continue
+                c = _cell_term(kf.series_cells(med[name], start + t, 1)[0])
+                if c is None:
+                    continue
+                const, coef = B.ur_mean_affine(Lrow, m0, Drow, obs, obs_all)
+                claims.append((f"{kind}_med:{name}@{t}", c, affine(const, coef)))
+                if name in std:
+                    sc = kf.series_cells(std[name], start + t, 1)[0]
+                    if not (isinstance(sc, float) and math.isnan(sc)):
+                        v = float(B.cond_cov(Lrow, obs)[0, 0])
+                        std_checks.append((f"{kind}_std:{name}@{t}", float(sc.v if isinstance(sc, S.SReal) else sc), math.sqrt(max(v, 0.0))))
+    key = f"means:{base_key}"
+    assume = _box(syms) + [path.condition()]
+    r0, _ = run.check_sat(assume, timeout_ms=30000)
+    if r0 != "sat" or not claims:
+        run.unknown(key, f"reachability witness {r0} / {len(claims)} claims")
+        return
+    run.reach_ok += 1
+    viol = z3.Or(*[z3.Not(_within(a, b)) for _, a, b in claims])
+    r, mdl = run.check_sat(assume + [viol], timeout_ms=180000)
+    if r == "unsat":
+        if len(run.samples) < 12:
+            l0, a0, b0 = claims[-1]
+            run.samples.append({"obligation": key, "verdict": "unsat: predicted/updated/smoothed means equal the conditional means given the GLS estimate of the "
+                                "fixed unknown initial condition (tolerance 1e-8) for all data in the unit box", "claims": len(claims),
+                                "example": f"{l0}: impl - oracle = {str(z3.simplify(a0 - b0))[:160]}"})
+        run.ok(key)
+    elif r == "sat":
+        bad = []
+        for labl, a, b in claims:
+            d = mdl.eval(a - b, model_completion=True)
+            fv = Fraction(d.numerator_as_long(), d.denominator_as_long())
+            if abs(fv) > TOL:
+                bad.append((labl, float(fv)))
+        vals = model_values(mdl, sorted(syms))
+        run.counterexample(key, f"kalman:means:{zm.name}", f"conditional means differ from exact Gaussian conditioning (fixed unknown initial condition): {bad[:4]}",
+                           dict(case, bad=bad[:6], values={n: [v.numerator, v.denominator] for n, v in vals.items()}))
+    else:
+        run.unknown(key, f"solver {r}")
+    key = f"stds:{base_key}"
+    run.extra["executed_obligations"] = run.extra.get("executed_obligations", 0) + 1
+    badstd = [(l, a, b) for l, a, b in std_checks if abs(a - b) > 1e-7 * (1 + abs(b))]
+    if badstd:
+        run.counterexample(key, f"kalman:stds:{zm.name}", f"standard deviations differ from the conditional covariances: {badstd[:3]}", dict(case, kind="api_ur", values={}))
+    elif std_checks:
+        run.ok(key, nontrivial=False)
+    # ---- concentrated likelihood
+    key = f"likelihood:{base_key}"
+    c0, R, my_all, Si = B.ur_neg_log_density(obs_all)
+    k = len(obs_all)
+    d = [y - _fr(my_all[i]) for i, y in enumerate(ys_all)]
+    v = []
+    for i in range(k):
+        t = _fr(0.0)
+        for j in range(k):
+            if R[i, j] != 0.0:
+                t = t + _fr(R[i, j]) * d[j]
+        v.append(t)
+    quad = _fr(0.0)
+    for i in range(k):
+        for j in range(k):
+            quad = quad + _fr(Si[i, j]) * v[i] * v[j]
+    oracle_nll = (_fr(c0) + quad) / 2
+    impl_nll = S.const(cache.neg_log_likelihood).t
+    contribs = [S.const(c).t for c in cache.neg_log_likelihood_contributions]
+    lik_claims = [("nll==concentrated -log density", impl_nll, oracle_nll), ("sum(contributions)==nll", sum(contribs[1:], contribs[0]), impl_nll)]
+    for t in range(nper):
+        if not any(o[1] == t for o in obs_all):
+            lik_claims.append((f"no-observation period {t} contributes 0", contribs[t], S.rv(0)))
+    ltol = Fraction(1, 10 ** 7)
+    r, mdl = _tolerance_query(run, lik_claims, assume, ltol)
+    if r == "unsat":
+        if len(run.samples) < 12:
+            run.samples.append({"obligation": key, "verdict": "unsat: -log L equals the concentrated Gaussian -log density (1e-7), contributions sum to the total", "observations": k})
+        run.ok(key)
+    elif r == "sat":
+        vals = model_values(mdl, sorted(syms))
+        bad = []
+        for labl, a, b in lik_claims:
+            dd = mdl.eval(a - b, model_completion=True)
+            try:
+                fv = Fraction(dd.numerator_as_long(), dd.denominator_as_long())
+            except Exception:
+                fv = Fraction(0)
+            if abs(fv) > ltol:
+                bad.append((labl, float(fv)))
+        run.counterexample(key, f"kalman:likelihood:{zm.name}", f"likelihood differs: {bad[:3]}",
+                           dict(case, values={n: [v_.numerator, v_.denominator] for n, v_ in vals.items()}))
+    else:
+        run.unknown(key, f"solver {r}")
 
 
 def api_options(run, ir, zm, m, nper, mask, deviation):
@@ -596,7 +754,7 @@ def main(run):
     run.functions_encoded += [
         "fords.kalmans.{kalman_filter,predict,update,smooth,one_step_back,Cache.calculate_likelihood,calculate_likelihood_contributions,"
         "_calculate_variance_scale,_OutputStore.*}", "simultaneous._kalmans.{_generate_period_system,_generate_period_data}",
-        "fords.initializers.initialize (stationary)", "fords.covariances.{symmetrize,get_cov_alpha_00 via initialize}",
+        "fords.initializers.{initialize,_initialize_med,_initialize_mse,_fixed_unknown}", "fords.kalmans.{estimate_unknown_init,correct_for_unknown_init}", "fords.covariances.{symmetrize,get_cov_alpha_00 via initialize}",
         "reached through Simultaneous.kalman_filter (A) and by direct calls with symbolic callables (B)",
     ]
     run.bounds["structures"] = ("(A) stationary zoo models with a measurement block (nk3, ar2m; pc_const in thorough), deviation in {T,F}, T=3, "
@@ -606,7 +764,11 @@ def main(run):
     run.stubs += ["(A) numpy.linalg.inv/det on concrete covariances via ground-concretising shims", "(B) matrix inverse stubbed by its contract: fresh symmetric Fi with Fi@F=I, shared by implementation and reference after proving their F equal"]
     run.assumptions += ["cells are mathematical reals; float-born coefficients read exactly", "(A) the oracle is built from the square solution T,P,K,Z,H,D "
                         "returned by get_solution() (C01 decides the solution) and from unconditional moments computed independently (linear solve, Lyapunov)"]
-    run.outside += ["unit-root models / diffuse initialisation (fixed_unknown uses lstsq)", "approx_diffuse", "time-varying stds in (A)", "n>2 or m>2 in (B)", "spans > 3 periods"]
+    run.bounds["unit_roots"] = ("(A-UR) unit-root zoo models ur_mix (random walk with drift + two stationary components with non-zero means, measurement shock) "
+                                "and ur_drift under the default diffuse_method='fixed_unknown', deviation in {T,F}, same masks (those that identify the "
+                                "initial condition), against the concentrated-likelihood oracle")
+    run.stubs.append("(A-UR) numpy.linalg.lstsq with a concrete matrix and a symbolic right-hand side executed as pinv(matrix) @ rhs")
+    run.outside += ["approx_diffuse and fixed_zero initialisation", "unit-root models with rescale_variance", "observation sets that do not identify the unknown initial condition", "time-varying stds in (A)", "n>2 or m>2 in (B)", "spans > 3 periods"]
     models = ("nk3", "ar2m") if run.tier == "quick" else ("nk3", "ar2m", "pc_const")
     nper = 3
     for name in models:
@@ -615,6 +777,16 @@ def main(run):
             for deviation in ((False,) if run.tier == "quick" else (False, True)):
                 try:
                     api_vs_oracle(run, ir, zm, m, nper, mask, deviation)
+                except S.SymbolicBranchError as exc:
+                    run.unknown(f"api:{zm.name}:{_mask_str(mask, len(zm.mvars), nper)}", exc)
+                except Exception as exc:
+                    run.error(f"api:{zm.name}:{_mask_str(mask, len(zm.mvars), nper)}", exc)
+    for name in UR_MODELS:
+        zm, m = _model(ir, name)
+        for mask in _masks(len(zm.mvars), nper, run.tier):
+            for deviation in (False, True):
+                try:
+                    api_vs_oracle_ur(run, ir, zm, m, nper, mask, deviation)
                 except S.SymbolicBranchError as exc:
                     run.unknown(f"api:{zm.name}:{_mask_str(mask, len(zm.mvars), nper)}", exc)
                 except Exception as exc:
@@ -736,6 +908,25 @@ def replay(case):
         e = abs(a - b) / scale
         if e > worst:
             worst, msg = e, f"{label}: irispie {a!r} vs oracle {b!r}"
+    if case["kind"] == "api_ur":
+        y_all = np.array([yv[o] for o in obs_all])
+        filt = {"predict": lambda o, t: o[1] < t, "update": lambda o, t: o[1] <= t, "smooth": lambda o, t: True}
+        for kind, f in filt.items():
+            for t in range(nper):
+                obs = [o for o in obs_all if f(o, t)]
+                for name, Lrow, m0, Drow in _ur_targets(B, xi, ynames, unames, wnames, t, kind):
+                    const, coef = B.ur_mean_affine(Lrow, m0, Drow, obs, obs_all)
+                    if name in out[f"{kind}_med"]:
+                        cmp(f"{kind}_med:{name}@{t}", g(out[f"{kind}_med"], name, start + t), float(const + coef @ y_all))
+                    if name in out[f"{kind}_std"]:
+                        cmp(f"{kind}_std:{name}@{t}", g(out[f"{kind}_std"], name, start + t), math.sqrt(max(float(B.cond_cov(Lrow, obs)[0, 0]), 0.0)))
+        c0, R, my_all, Si = B.ur_neg_log_density(obs_all)
+        v = R @ (y_all - my_all)
+        nll = 0.5 * (c0 + float(v @ Si @ v))
+        cmp("neg_log_likelihood", float(info["neg_log_likelihood"]), nll, scale=1 + abs(nll))
+        parts = float(np.nansum(np.asarray(info["neg_log_likelihood_contributions"].get_data(span), dtype=float)))
+        cmp("sum of contributions", parts, float(info["neg_log_likelihood"]), scale=1 + abs(nll))
+        return worst > 1e-6, msg
     filt = {"predict": lambda o, t: o[1] < t, "update": lambda o, t: o[1] <= t, "smooth": lambda o, t: True}
     for kind, f in filt.items():
         for t in range(nper):
